@@ -366,7 +366,11 @@ class QArr(_QBase):
             return SymQuat(r[0], r[1], r[2], r[3])
         return QArr(r)
 
+    _set_hook = None      # optional observer of item assignments (used by C10 to see deflations), never alters the assignment
+
     def __setitem__(self, idx, v):
+        if QArr._set_hook is not None:
+            QArr._set_hook(self, idx, v)
         idx = self._idx(idx)
         if isinstance(v, QArr):
             self.F[idx] = v.F
